@@ -759,6 +759,22 @@ def _apply_edit(prim, kind, p, U, ed):
             U = M @ U @ S
         else:
             U = M @ U
+    elif op == "height_hash_twins":
+        # two numbers the builtin hash() cannot tell apart (hash(-1.0) == hash(-2.0) == -2): the
+        # second assignment must still be noticed
+        for h in (-1.0, -2.0) if kind == "Extrusion" else (1.0, float(2 ** 61)):
+            if kind == "Extrusion":
+                P.height = h
+                p["height"] = h
+            if ed.get("read_between") and h in (-1.0, 1.0):
+                _ = prim.vertices
+    elif op == "transform_buffer_reused":
+        # the caller keeps and re-uses the array it handed over as `transform`
+        buf = np.array(ed["value"], dtype=np.float64)
+        P.transform = buf
+        U = np.array(ed["value"], dtype=np.float64)
+        _ = prim.vertices
+        buf[:3, 3] += 7.5  # the caller's scratch buffer moves on; the primitive must not follow silently
     elif op == "trade":
         # two parameters exchange their values, written back to back with NO read in between:
         # the multiset of parameter values is unchanged, which parameter holds which is not
@@ -1238,6 +1254,15 @@ def workload(run):
                             emit({"fn": "primitive", "kind": kind, "params": dict(p0), "U": places[1][1].tolist(),
                                   "edits": [dict({"op": "trade", "index": 0, "pre": pre}, **extra),
                                             {"op": "trade", "index": 1, "pre": ["vertices"]}], "rseed": 0})
+            for rb in (True, False):
+                if mine():
+                    emit({"fn": "primitive", "kind": "Extrusion", "params": {"polygon": FIXED_POLYGONS[0], "height": 1.5},
+                          "U": places[1][1].tolist(),
+                          "edits": [{"op": "height_hash_twins", "read_between": rb, "pre": ["vertices"] if rb else []}], "rseed": 0})
+            for kind, p0 in (("Box", {"extents": [1.0, 2.0, 3.0]}), ("Cylinder", {"radius": 2.0, "height": 3.0, "sections": 12})):
+                if mine():
+                    emit({"fn": "primitive", "kind": kind, "params": dict(p0), "U": np.eye(4).tolist(),
+                          "edits": [{"op": "transform_buffer_reused", "value": places[1][1].tolist(), "pre": ["vertices"]}], "rseed": 0})
         nhist = 40 if quick else 80
         for _ in range(nhist):
             if run.out_of_time(0.93):
